@@ -301,7 +301,7 @@ def _sizes(fr):
 # "every call returns in finite time" is watched by common's per-case timer (CASE_TIMEOUT, confirmed by a solitary
 # re-run with a ten times larger budget).  Two additions keep a check over an implementation that hangs short
 # and harmless for the machine:
-#  * while the real code runs, the address space of the process is limited to what it had + 256 MB, so a hang
+#  * while the real code runs, the address space of the process is limited to what it has + 256 MB, so a hang
 #    that allocates (the defect fixed in 8562852 extended a list while iterating over it) surfaces within a second
 #    as `Other:MemoryError` in that call (the limit is lifted again before returning: the main process starts Lean);
 #  * after two cases that hung while burning CPU (and their two confirming re-runs), or ten that ran out of memory,
@@ -315,27 +315,23 @@ _MEM_HEADROOM = 256 << 20
 
 
 def _limit_memory():
-    """Limit the address space to what the process has now + _MEM_HEADROOM.  Pool workers (they never start
-    another program) do this once and keep the limit; the main process (few cases: small runs, shrinking, replay)
-    does it per call and gets the previous (soft, hard) limit back to restore it."""
+    """Limit the address space to what the process has + _MEM_HEADROOM while the real code runs; returns the previous
+    (soft, hard) limit to restore afterwards (the harness itself, and the Lean driver the main process starts, are
+    not to be limited).  The size of the process is re-read every 256 calls (reading /proc is the expensive part)."""
     try:
-        import multiprocessing
         import resource
-        worker = multiprocessing.current_process().name != "MainProcess"
-        if worker and _HANGS.get("limited"):
-            return None
-        with open("/proc/self/statm") as f:
-            vm = int(f.read().split()[0]) * resource.getpagesize()
+        k = _HANGS.get("calls", 0)
+        _HANGS["calls"] = k + 1
+        if k % 256 == 0 or "vm" not in _HANGS:
+            with open("/proc/self/statm") as f:
+                _HANGS["vm"] = int(f.read().split()[0]) * resource.getpagesize()
         soft, hard = resource.getrlimit(resource.RLIMIT_AS)
-        lim = vm + _MEM_HEADROOM
+        lim = _HANGS["vm"] + _MEM_HEADROOM
         if hard != resource.RLIM_INFINITY and lim > hard:
             return None
         if soft != resource.RLIM_INFINITY and lim >= soft:
             return None
         resource.setrlimit(resource.RLIMIT_AS, (lim, hard))
-        if worker:
-            _HANGS["limited"] = True
-            return None
         return (soft, hard)
     except Exception:
         return None
@@ -445,7 +441,29 @@ def run_impl(case):
         _unlimit_memory(old)
     if isinstance(res, dict) and res.get("e") == "Other:MemoryError":
         _HANGS["mem"] += 1
+    size = _leaves(res)
+    if size > _RESULT_LIMIT:
+        # a case feeds at most ~50 values: an output of this size is not a result to keep (and to ship to the parent)
+        _HANGS["mem"] += 1
+        return {"e": "Other:ResultTooLarge", "phase": case["op"], "size": size}
     return res
+
+
+_RESULT_LIMIT = 20000
+
+
+def _leaves(o, cap=10 ** 6):
+    """number of scalars in a nested list/dict result (stops counting at cap)"""
+    n, stack = 0, [o]
+    while stack and n < cap:
+        x = stack.pop()
+        if isinstance(x, dict):
+            stack.extend(x.values())
+        elif isinstance(x, (list, tuple)):
+            stack.extend(x)
+        else:
+            n += 1
+    return n
 
 
 def _run_impl(case):
@@ -464,6 +482,15 @@ def _run_impl(case):
     except Exception as e:
         return {"e": exc_name(e), "phase": "init"}
     flow = list(range(case["n"]))
+    try:
+        # a second adapter of the same class around another element object, left with an unrequested overflow:
+        # adapters must not share state (visible inside this one case, so that a replay shows it)
+        decoy = make_adapter(dict(case, stop=None))
+        if callable(getattr(decoy, "fill", None)):
+            for x in range(-case["bufsize"] - 1, 0):
+                decoy.fill(x)
+    except Exception as e:
+        return {"e": exc_name(e), "phase": "second adapter"}
     if op == "run":
         try:
             res = {"r": list(fr.run(iter(flow)))}
@@ -476,11 +503,6 @@ def _run_impl(case):
     if op == "ops":
         trace = []
         try:
-            # a second adapter of the same class around another element object, left with an unrequested overflow:
-            # adapters must not share state
-            decoy = make_adapter(case)
-            for x in range(-case["bufsize"] - 1, 0):
-                decoy.fill(x)
             for o in _ops_of(case):
                 if o is None:
                     out = list(fr.request())
@@ -609,18 +631,13 @@ def compare(case, res, replies):
     if op == "ops":
         if res["t"] != m["t"]:
             return f"impl trace {res['t']} vs model {m['t']}"
-        outs = [t[0] for t in res["t"] if t[0] is not None]
-        if "o" in m and m["o"] != [outs] + res["t"][-1][1:]:
-            return f"runOps of the model {m['o']} vs impl requests {outs}, final sizes {res['t'][-1][1:]}"
-        flow = list(range(case["n"]))
-        if m.get("fills", flow) != flow:
-            return f"fills of the model {m['fills']} vs filled values {flow}"
-        if m.get("inv", True) is not True:
-            return "invOps of the model is false (invariant / state after request) on a history the real code agrees with"
-        if m.get("spec") is not None and m["spec"] != [x for o in outs for x in o]:
-            return f"specification of the closed history {m['spec']} vs impl {[x for o in outs for x in o]}"
-        if m.get("rec", flow) != flow:
-            return f"recording element of the model accounts {m['rec']} for the filled values {flow}"
+        names = ("runOps agrees with the trace (outputs per request, final sizes)", "fills = the filled values",
+                 "invOps (invariant along the history, state after request)",
+                 "specification of the closed history (emitAll over segments / runFillCompute on the filled values) = "
+                 "what the requests yielded", "the recording element accounts for exactly the filled values")
+        for ok, name in zip(m.get("chk", []), names):
+            if ok is not True:
+                return f"specification side of the model fails on a history the real code agrees with: {name}"
         return None
     if op == "opsx":
         return None if res["t"] == m["t"] else f"impl trace {res['t']} vs model {m['t']}"
@@ -739,6 +756,8 @@ def oracle(case, res):
             if outs != ref:
                 return (f"Split(bufsize={case['m']}) around FillRequest(bufsize={n}) yields {outs}, "
                         f"run on the whole flow would yield {ref}")
+        if L == 0 and outs:
+            return f"Split around FillRequest yields {outs} for an empty flow"
         return _accounted(case, outs, flow, closed=True, pending=None)
     if op == "opsx":
         return _oracle_opsx(case, res)
@@ -756,6 +775,10 @@ def oracle(case, res):
                 return f"{op}: LenaStopFill although the element accepts every value"
             if not case["yor"] and res["r"] != ref_run(case, flow):
                 return f"{op}: results {res['r']}, block reference {ref_run(case, flow)}"
+            if L == 0 and res["r"]:
+                return f"{op}: an empty flow yields {res['r']}"
+            if op == "splitx":
+                return _accounted(case, res["r"], flow, closed=True, pending=None)
         return None
     raise ValueError(op)
 
